@@ -3,7 +3,11 @@ from ..runner import Case
 from .. import gen
 
 ID = "C04"
+STATEFUL = True     # some blocks keep a live object across lines
 LEAN_TARGETS = ["Cider.Props.C04", "Cider.Props.C04Tie"]
+# source-text tie (translated on every run by tools/pyexpr2lean.py); skipped when a function no longer fits the translator
+OPTIONAL_TARGETS = ["Cider.Props.C04Src"]
+OPTIONAL_THEOREMS = {"Cider.Props.C04Src": ['Cider.C04Src.fractions_eq', 'Cider.C04Src.source_identities', 'Cider.C04Src.source_bounds']}
 P = "Cider.C04."
 THEOREMS = [P + t for t in (
     "gen_charge_eq_published", "gen_kd_eq_published", "gen_kdUversky_eq_published", "gen_ww_eq_published",
@@ -33,7 +37,18 @@ def block(seq):
     return out
 
 
+PRE = ["linFCR 3", "linNCPR 2", "linSigma 5", "linHydro 4", "linComp 3 -", "kappa", "dmaxperm", "omega", "html", "scd", "region", "reduce 5 -",
+       "cplx WF 20 - 3 1 3", "phosseq", "pi", "phq fcr 7/1"]
+
+
 def cases(rng, tier):
+    # the documented scale names are case-insensitive
+    for m in ("Hilser", "HILSER", "Creamer", "CREAMER", "cReAmEr", "Kallenbach", "KALLENBACH", "default"):
+        for sq in ("P", "APGQ", gen.rand_seq(rng, "idp", 30)):
+            yield Case(["q ppii %s %s" % (sq, m)], {"kind": "ppii-mode-case"})
+    # every composition getter AFTER other public calls on the same object (profiles, patterning, rendering, ...)
+    for c in gen.after_calls_cases(rng, 16 if tier == "quick" else 120, OPS):
+        yield c
     for a in gen.AAS:
         yield Case(block(a), {"kind": "single"}, nontrivial=False)
     for a in gen.AAS:
